@@ -641,21 +641,25 @@ func vfParallel(r *core.Run, total int, setup func(w int) (run func(idx int, st 
 
 // vfCaseBook collects evaluation/nontrivial hashes per worker.
 type vfCaseBook struct {
-	n  int
-	nt []uint64
+	n   int
+	all []uint64
+	nt  []uint64
 }
 
 func (b *vfCaseBook) add(key string, nontrivial bool) {
 	b.n++
+	h := core.HashKey(key)
 	if nontrivial {
-		b.nt = append(b.nt, core.HashKey(key))
+		b.nt = append(b.nt, h)
+	} else {
+		b.all = append(b.all, h)
 	}
 }
 
 func (b *vfCaseBook) flush(r *core.Run) {
-	r.AddHashes(b.n, nil, b.nt)
+	r.AddHashes(b.n, b.all, b.nt)
 	r.Count("nontrivial_sequences", len(b.nt))
-	b.n, b.nt = 0, nil
+	b.n, b.all, b.nt = 0, nil, nil
 }
 
 func vfRunDir(sub string) string {
